@@ -40,6 +40,8 @@ def plan(tier, seed):
     specs.append(("doc-indentation", 1, 2))
     for i in range(4):
         specs.append(("eol-defects", i, 4))
+    for i in range(4):
+        specs.append(("truncations", i, 4))
     specs.append(("variants", 0))
     for i in range(4):
         specs.append(("cmdline", i, 4))
@@ -62,6 +64,7 @@ def asan_plan(tier):
     specs += [("doc-product", i, 64 if tier == "quick" else 8) for i in range(8)]
     specs.append(("variants", 0))
     specs += [("eol-defects", i, 8) for i in range(2)]
+    specs += [("truncations", i, 4) for i in range(4)]
     specs += [("multifile", 40 * k, 100 + i) for i in range(8)]
     specs += [("valid-programs", 25 * k, i) for i in range(16)]
     return specs
@@ -277,6 +280,13 @@ def run_shard(ctx, spec):
         ctx.stats["eol_defect_cases"] += len(batch)
         if idx == 0:
             ctx.sample({"family": "defect at the end of a line x line ending x context", "example": batch[len(batch) // 2]["files"][0]}, limit=1)
+    elif kind == "truncations":
+        _, idx, n = spec
+        batch = [{"files": [t], "key": k} for i, (k, t) in enumerate(fam.truncation_programs()) if i % n == idx]
+        scr.run(batch, sample_rate=0.05)
+        ctx.stats["truncation_cases"] += len(batch)
+        if idx == 0:
+            ctx.sample({"family": "lint-rich program cut at every token boundary (+ stray token)", "example": batch[len(batch) // 3]["files"][0][-300:]}, limit=1)
     elif kind == "doc-indentation":
         _, idx, n = spec
         batch = [{"files": [t], "key": k} for i, (k, t) in enumerate(fam.doc_indentation_programs()) if i % n == idx]
@@ -292,6 +302,34 @@ def run_shard(ctx, spec):
     elif kind == "cmdline":
         _, idx, n = spec
         cmdline_family(ctx, idx, n)
+    elif kind == "fuzz-artifacts":
+        # inputs on which the coverage-guided fuzzer stopped (crash / timeout / out of memory under the instrumented build):
+        # re-judged here through the uninstrumented worker and the real binary, whose observations alone are verdicts
+        _, adir = spec
+        cases = []
+        for name in sorted(os.listdir(adir)):
+            with open(os.path.join(adir, name), "rb") as f:
+                data = f.read()
+            try:
+                text = data.decode("utf-8")
+            except UnicodeDecodeError:
+                continue
+            defines = []
+            while text.startswith("\x01"):
+                line, _, text = text[1:].partition("\n")
+                defines.append(line)
+            cases.append({"files": text.split("\x0c")[:3], "defines": defines, "key": name, "artifact": name})
+        ctx.stats["fuzz_artifacts_rejudged"] += len(cases)
+        before = len(ctx.violations)
+        # a slow artifact is not given a verdict here: the CPU bound is decided by the scaling families, whose instances are
+        # identified by family (a fuzzer-found variant of a known finding could not be told from a new one)
+        scr.asan = True
+        scr.want = ["codes", "ast", "visit"]
+        scr.run(cases, sample_rate=1.0)
+        for c_ in cases:
+            ctx.sample({"family": "fuzz artifact", "artifact": c_["artifact"], "files": [t[:200] for t in c_["files"]]}, limit=3)
+        if len(ctx.violations) == before and cases:
+            ctx.extra["fuzz_artifacts_not_reproduced"] = [c_["artifact"] for c_ in cases][:10]
     elif kind == "valid-programs":
         # model-generated valid multi-file programs: the only family in which patching, validation, conversion and
         # encoding all run to the end on rich ASTs
@@ -418,6 +456,86 @@ def cmdline_family(ctx, idx, n):
     ctx.sample({"family": "cmdline", "example": combos[min(len(combos) - 1, 57)]}, limit=1)
 
 
+FUZZ_SECONDS = int(os.environ.get("VERIF_FUZZ_SECONDS", "240"))
+
+
+def fuzz_phase(seed, paths):
+    """Coverage-guided exploration (libFuzzer + AddressSanitizer, 16 processes) of the library pipeline - compile, walk, emit -
+    seeded with members of the other families. The fuzzer only proposes inputs; verdicts come from re-running what it stopped
+    on through the uninstrumented worker and the real binary."""
+    import random
+    import shutil
+    import subprocess
+    import tempfile
+    run = core.Run(PROP, "thorough", seed)
+    try:
+        fz = build.build_fuzz()
+    except build.BuildError as e:
+        run.errors.append("fuzz target does not build: %s" % e)
+        return run
+    work = tempfile.mkdtemp(prefix="verif-C01-fuzz-", dir=core.scratch_root())
+    corpus, art = os.path.join(work, "corpus"), os.path.join(work, "art")
+    os.makedirs(corpus)
+    os.makedirs(art)
+    rng = random.Random("fuzz/%d" % seed)
+    seeds = list(fam.VALID_PROGRAMS) + [fam.WARNING_PROGRAM]
+    seeds += [t for _, t in rng.sample(list(fam.typeform_programs()), 150)]
+    seeds += [t for _, t in rng.sample(list(fam.eol_defect_programs()), 150)]
+    seeds += [t for _, t in rng.sample(list(fam.doc_product_programs()), 150)]
+    seeds += [t for _, t in fam.cycle_and_chain_programs()][:40]
+    from ..slicegen import gen as sgen, printer as sprinter
+    for _ in range(60):
+        prog = sgen.valid_program(random.Random(rng.random()), max_files=3, type_depth=2)
+        sgen.add_comments(prog, random.Random(rng.random()), density=0.4)
+        seeds.append("\x0c".join(sprinter.print_program(prog)))
+    seeds += ["\x01A\nmodule M\n#if A\nstruct S {}\n#endif\n", "module M\n\x0cmodule N\nstruct T { s: M::S }\n"]
+    for i, t in enumerate(seeds):
+        if len(t.encode("utf-8", "ignore")) <= 8192:
+            with open(os.path.join(corpus, "seed%04d" % i), "wb") as f:
+                f.write(t.encode("utf-8", "ignore"))
+    with open(os.path.join(work, "dict"), "w") as f:
+        for tok in fam.TOKENS + ["\x0c", "\x01A\n", "@param", "@returns", "@see", "{@link ", "#elif", "#undef", "[[", "]]"]:
+            if tok:
+                # libFuzzer dictionary syntax: printable ASCII, everything else (and quote / backslash) as \xNN
+                f.write('"%s"\n' % "".join(chr(b) if 0x20 <= b < 0x7f and b not in (0x22, 0x5c) else "\\x%02x" % b for b in tok.encode("utf-8")))
+    env = dict(os.environ, ASAN_OPTIONS="detect_odr_violation=0:detect_leaks=0:allocator_may_return_null=1")
+    cmd = [fz, corpus, "-dict=" + os.path.join(work, "dict"), "-timeout=10", "-rss_limit_mb=3000", "-max_len=8192", "-fork=%d" % core.NPROC,
+           "-max_total_time=%d" % FUZZ_SECONDS, "-artifact_prefix=" + art + "/", "-ignore_crashes=1", "-ignore_timeouts=1", "-ignore_ooms=1",
+           "-seed=%d" % (seed + 1)]
+    try:
+        p = subprocess.run(cmd, env=env, cwd=work, stdout=subprocess.PIPE, stderr=subprocess.STDOUT, timeout=FUZZ_SECONDS + 300)
+        log = p.stdout.decode("utf-8", "replace")
+    except subprocess.TimeoutExpired as e:
+        log = (e.stdout or b"").decode("utf-8", "replace")
+        run.inconclusive.append({"family": "fuzz", "why": "fuzzer did not stop in time"})
+    stats = re.findall(r"^#(\d+): cov: (\d+) ft: (\d+) corp: (\d+)", log, flags=re.M)
+    if stats:
+        n, cov, ft, corp = map(int, stats[-1])
+        run.stats["fuzz_executions"] = n
+        run.stats["fuzz_coverage_edges"] = cov
+        run.stats["fuzz_features"] = ft
+        run.stats["fuzz_corpus_units"] = corp
+        run.evaluations += n
+    else:
+        run.errors.append("no progress line in the fuzzer log: %s" % log[-600:])
+    run.stats["fuzz_seed_inputs"] = len(os.listdir(corpus)) if not stats else len(seeds)
+    arts = os.listdir(art)
+    run.stats["fuzz_artifacts"] = len(arts)
+    run.extra["fuzz"] = {"seconds": FUZZ_SECONDS, "processes": core.NPROC, "artifacts": sorted(arts)[:20],
+                         "note": "fork mode is not reproducible run to run; artifacts are re-judged deterministically"}
+    if arts:
+        r2 = core.run_shards(__name__, PROP, "thorough", seed, paths, [("fuzz-artifacts", art)], jobs=1)
+        run.stats.update(r2.stats)
+        for v in r2.violations:
+            v["what"] = "[found by the fuzzer] " + v["what"]
+        run.violations.extend(r2.violations)
+        run.errors.extend(r2.errors)
+        run.samples.extend(r2.samples)
+        run.extra.update({k: v for k, v in r2.extra.items() if k.startswith("fuzz")})
+    shutil.rmtree(work, ignore_errors=True)
+    return run
+
+
 def main(tier, seed):
     paths = build.build("release", ("slicec", "vh"))
     run = core.run_shards(__name__, PROP, tier, seed, paths, plan(tier, seed))
@@ -434,6 +552,15 @@ def main(tier, seed):
         run.evaluations += run2.evaluations
         run.nontrivial |= run2.nontrivial
         run.errors.extend(run2.errors)
+    if tier == "thorough":
+        run4 = fuzz_phase(seed, paths)
+        run.stats.update(run4.stats)
+        run.violations.extend(run4.violations)
+        run.evaluations += run4.evaluations
+        run.errors.extend(run4.errors)
+        run.extra.update(run4.extra)
+        for s in run4.samples:
+            run.samples.append(s)
     # AddressSanitizer pass: the AST is a graph of OwnedPtr / WeakPtr (raw pointers dereferenced in unsafe code); a dangling one
     # is a crash that an uninstrumented run may not show. Both the worker (which walks every pointer of the result) and
     # the real binary (converter + encoder + generator pipe) run instrumented.
@@ -461,14 +588,18 @@ def main(tier, seed):
               "for length <= %d, each also after `module M`; random length 4-60), byte/char/token mutations of valid programs, every "
               "type form in every type position, cycles and long chains, nesting to the 8 KiB cap, scaling families (CPU-time curve "
               "per size, through the binary), doc comments with mixed-width Unicode indentation, CRLF/tab/BOM/NUL variants, command-"
-              "line value combinations incl. empty strings, multi-file sets. A sample of the soup, mutation, type-form, cycle, doc-comment, "
+              "line value combinations incl. empty strings, multi-file sets, programs whose every element carries a lint cut at every token "
+              "boundary (bare and followed by a stray token). A sample of the soup, mutation, type-form, cycle, doc-comment, "
               "variant and multi-file families plus model-generated valid programs is repeated under AddressSanitizer builds of the "
-              "worker (which dereferences every pointer of the resulting AST) and of the binary (counters prefixed asan.). "
+              "worker (which dereferences every pointer of the resulting AST) and of the binary (counters prefixed asan.). Thorough tier: "
+              "a libFuzzer + AddressSanitizer build of the library pipeline explores from seeds of these families for a fixed time on "
+              "all cores; whatever it stops on is re-judged through the uninstrumented worker and binary (counters prefixed fuzz_). "
               "distinct_nontrivial = distinct non-empty inputs"
               % (len(fam.TOKENS), 2 if tier == "quick" else 3)),
         required={"inproc_cases": 5000, "binary_runs": 500, "inproc_error_free": 50, "typeform_position_pairs": 300,
-                  "scaling_instances": 20, "cmdline_runs": 300, "doc_indentation_cases": 100, "doc_product_cases": 1000, "eol_defect_cases": 1000,
-                  "asan.inproc_cases": 1500, "asan.binary_runs": 300, "asan.valid_model_programs": 200},
+                  "scaling_instances": 20, "cmdline_runs": 300, "doc_indentation_cases": 100, "doc_product_cases": 1000, "eol_defect_cases": 1000, "truncation_cases": 1500, "asan.truncation_cases": 1500,
+                  "asan.inproc_cases": 1500, "asan.binary_runs": 300, "asan.valid_model_programs": 200,
+                  **({"fuzz_executions": 200000, "fuzz_coverage_edges": 3000} if tier == "thorough" else {})},
         assumptions=["the time bound is decided on CPU time (rusage / thread clock), never on wall-clock; a watchdog firing below the "
                      "bound is inconclusive", "'grows gently' is only decided as the stated hard bound: 20 s CPU for <= 8 KiB"],
         exhaustive=True,
